@@ -395,6 +395,7 @@ func (r *Router) Run(ctx context.Context) (err error) {
 
 	<-r.closingInProgressCh
 	verifhook.At("router.life.run.closing_seen")
+	verifhook.At("router.close.run_cancel")
 	cancel()
 
 	r.logger.Info("Waiting for messages", watermill.LogFields{
@@ -403,6 +404,7 @@ func (r *Router) Run(ctx context.Context) (err error) {
 
 	<-r.closedCh
 	verifhook.At("router.life.run.closed_seen")
+	verifhook.At("router.close.run_saw_closed")
 
 	r.logger.Info("All messages processed", nil)
 
@@ -477,6 +479,7 @@ func (r *Router) RunHandlers(ctx context.Context) error {
 			h.run(ctx, middlewares)
 
 			verifhook.At("router.life.loop.wg_done", name)
+			verifhook.At("router.handler.wg_done", name)
 			r.handlersWg.Done()
 			logger.Info("Subscriber stopped", nil)
 
@@ -572,13 +575,16 @@ func (r *Router) Close() error {
 	r.closedLock.Lock()
 	verifhook.At("router.life.close.clocked")
 	defer r.closedLock.Unlock()
+	defer verifhook.At("router.close.unlock")
 
 	r.handlersLock.Lock()
 	verifhook.At("router.life.close.hlocked")
 	defer r.handlersLock.Unlock()
+	verifhook.At("router.close.locked")
 
 	if r.closed {
 		verifhook.At("router.life.close.already")
+		verifhook.At("router.close.already_closed")
 		r.logger.Debug("Already closed", nil)
 		return nil
 	}
@@ -590,12 +596,15 @@ func (r *Router) Close() error {
 	defer r.logger.Info("Router closed", nil)
 
 	verifhook.At("router.life.close.closing")
+	verifhook.At("router.close.signal")
 	close(r.closingInProgressCh)
 	defer close(r.closedCh)
 	defer verifhook.At("router.life.close.closed")
+	defer verifhook.At("router.close.closedch")
 
 	timedout := r.waitForHandlers()
 	verifhook.At("router.life.close.waited", fmt.Sprint(timedout))
+	verifhook.At("router.close.waited", fmt.Sprint(timedout))
 	if timedout {
 		return errors.New("router close timeout")
 	}
@@ -609,6 +618,7 @@ func (r *Router) waitForHandlers() bool {
 	go func() {
 		defer waitGroup.Done()
 		r.handlersWg.Wait()
+		verifhook.At("router.close.loops_done")
 	}()
 	waitGroup.Add(1)
 	go func() {
@@ -616,8 +626,11 @@ func (r *Router) waitForHandlers() bool {
 
 		r.runningHandlersWgLock.Lock()
 		defer r.runningHandlersWgLock.Unlock()
+		defer verifhook.At("router.close.running_unlock")
+		verifhook.At("router.close.running_locked")
 
 		r.runningHandlersWg.Wait()
+		verifhook.At("router.close.running_wait_done")
 	}()
 	return sync_internal.WaitGroupTimeout(&waitGroup, r.config.CloseTimeout)
 }
@@ -677,15 +690,20 @@ func (h *handler) run(ctx context.Context, middlewares []middleware) {
 
 	for msg := range h.messagesCh {
 		verifhook.At("router.life.loop.recv", h.name)
+		verifhook.At("router.handler.received", h.name, msg.UUID)
 		h.runningHandlersWgLock.Lock()
+		verifhook.At("router.handler.wg_locked", h.name, msg.UUID)
 		h.runningHandlersWg.Add(1)
+		verifhook.At("router.handler.wg_added", h.name, msg.UUID)
 		h.runningHandlersWgLock.Unlock()
 
 		go h.handleMessage(msg, middlewareHandler)
 	}
+	verifhook.At("router.handler.loop_ended", h.name)
 
 	verifhook.At("router.life.loop.range_done", h.name)
 	if h.publisher != nil {
+		verifhook.At("router.handler.pub_close", h.name)
 		h.logger.Debug("Waiting for publisher to close", nil)
 		verifhook.At("router.life.loop.pub_close", h.name)
 		if err := h.publisher.Close(); err != nil {
@@ -800,24 +818,31 @@ func (h *handler) addHandlerContext(messages ...*Message) {
 }
 
 func (h *handler) handleClose(ctx context.Context) {
+	verifhook.At("router.handler.handleclose.enter", h.name)
 	select {
 	case <-h.routersCloseCh:
 		verifhook.At("router.life.hc.closing", h.name)
+		verifhook.At("router.handler.handleclose.closing", h.name)
 		// for backward compatibility we are closing subscriber
 		h.logger.Debug("Waiting for subscriber to close", nil)
 		if err := h.subscriber.Close(); err != nil {
 			h.logger.Error("Failed to close subscriber", err, nil)
 		}
 		h.logger.Debug("Subscriber closed", nil)
+		verifhook.At("router.handler.handleclose.sub_closed", h.name)
 	case <-ctx.Done():
 		verifhook.At("router.life.hc.ctx", h.name)
+		verifhook.At("router.handler.handleclose.ctx_done", h.name)
 		// we are closing subscriber just when entire router is closed
 	}
+	verifhook.At("router.handler.handleclose.stop", h.name)
 	h.stopFn()
 }
 
 func (h *handler) handleMessage(msg *Message, handler HandlerFunc) {
 	defer h.runningHandlersWg.Done()
+	defer verifhook.At("router.handler.msg.done", h.name, msg.UUID)
+	verifhook.At("router.handler.msg.start", h.name, msg.UUID)
 	msgFields := watermill.LogFields{"message_uuid": msg.UUID}
 
 	defer func() {
